@@ -15,7 +15,7 @@ RULE = ("(a) seeded whole-system runs in which a scripted client issues in-proce
         "queue operation it caused, commands taken once / in acceptance order / none after shutdown (Coq monitor), every status answer equals the table applied to the flag values read during that request. "
         "Non-trivial = a run with at least one 503, one 404/405 and three executed commands; distinct = canonical JSON.")
 TRUSTED = B.TRUSTED_SYS + ["Starlette routing is exercised, not modelled (404/405 come from the real app)"]
-ASSUMPTIONS = B.ASSUMPTIONS_SYS + ["the status request reads the flags one after the other; 'consistent at some instant' is checked as: the answer is the table's value for the values it read"]
+ASSUMPTIONS = B.ASSUMPTIONS_SYS + ["the status request reads the flags one after the other: the answer must be the table's value for the values it read AND must have been true at some instant between the beginning and the end of the request (computed from the flag operations of the trace); the unchanged tree violates the second clause in one known way (open known finding D10)"]
 
 STATUS = {"active": "StActive", "pausing": "StPausing", "paused": "StPaused", "resuming": "StResuming", "shutting down": "StShuttingDown"}
 STATUS_ENUM = {1: "active", 2: "pausing", 3: "paused", 4: "resuming", 5: "shutting down", 6: "offline"}
@@ -50,6 +50,44 @@ def gen(rng, tier):
                 for rs in (False, True):
                     cases.append({"kind": "table", "shutdown": sh, "resume": rs, "flags": list(flags)})
     return cases
+
+
+def table(st):
+    if st["shutdown"]:
+        return "shutting down"
+    if not st["resume"]:
+        return "paused" if (st["paused0"] and st["paused1"]) else "pausing"
+    return "resuming" if (st["paused0"] or st["paused1"]) else "active"
+
+
+def status_windows(obs):
+    """for every status request: the answer, the flags in the order they were read, and the set of statuses that were
+    TRUE at some instant between the beginning and the end of the request (from the flag operations of the whole trace)"""
+    tr = obs.get("trace") or []
+    st = {"resume": False, "shutdown": False, "paused0": False, "paused1": False}
+    out, cur = [], None
+    for e in tr:
+        if e[1] in ("set", "clear") and e[2] in st:
+            st[e[2]] = (e[1] == "set")
+            if cur is not None:
+                cur["true"].add(table(st))
+        elif e[0] == "client" and e[1] == "status_b":
+            cur = {"true": {table(st)}, "order": []}
+        elif e[0] == "client" and e[1] == "is_set" and cur is not None:
+            cur["order"].append(e[2])
+        elif e[0] == "client" and e[1] == "status_e" and cur is not None:
+            cur["answer"] = STATUS_ENUM.get(e[3])
+            out.append(cur)
+            cur = None
+    return out
+
+
+def instant_inconsistency(obs):
+    """the answer of a status request that was true at NO instant during the request, with the order of its flag reads"""
+    for w in status_windows(obs):
+        if w["answer"] not in w["true"]:
+            return "status-true-at-no-instant:reads=" + ",".join(dict.fromkeys(w["order"]))
+    return None
 
 
 def http_consistent(obs):
@@ -102,7 +140,7 @@ def precheck(case, obs):
     v = B.precheck_common(case, obs)
     if v:
         return v
-    if http_consistent(obs):
+    if http_consistent(obs) or instant_inconsistency(obs):
         return {"agree": True, "prop_ok": False}
     return None
 
@@ -133,7 +171,7 @@ def signature(case, obs):
         return "status-table"
     if "error" in obs or "crash" in obs:
         return "harness-error"
-    return http_consistent(obs) or "command-order"
+    return http_consistent(obs) or instant_inconsistency(obs) or "command-order"
 
 
 def shrink(case):
@@ -163,5 +201,6 @@ TECHNIQUE = "Coq simulation proof: the command-queue monitor holds on every trac
 LEVEL_TEXT = ("Machine-checked for any number of threads and queue size and every accepted trace: each accepted command is taken exactly once in acceptance order, a refused one never, nothing after a shutdown command; "
               "the status table yields 'paused' iff not shutting down, resume cleared and every flag set. Tied to /repo by runs of the real launch() with a scripted client issuing in-process ASGI requests (valid, bursts above the "
               "queue size, unknown paths, wrong methods, status) against the real Starlette app while the real control loop consumes, and by all rows of the status table for 0-4 threads on the real SystemStatusProvider.")
-LEVEL_NOTE = "Trusted: as C01, plus the in-process ASGI client; Starlette's routing is exercised, not modelled. Status truthfulness is checked against the flag values read during the request."
+LEVEL_NOTE = ("Partial for the status clause: that a status answer was true at some instant of the request is an oracle evaluated on the implementation's traces only (the real provider reads the flags non-atomically, so no theorem "
+              "of this kind holds for it: open known finding D10, see DESIGN.md 10.3); the table itself and the command-queue clause are theorems. Trusted: as C01, plus the in-process ASGI client; Starlette's routing is exercised, not modelled.")
 DESIGN_REF = "DESIGN.md §4 C17"
